@@ -68,6 +68,8 @@ type PipelineHandler struct {
 	exporter       drivers.Driver
 	pipelineConfig PipelineHandlerConfig
 	logger         logging.Logger
+	// stateStored is closed by the manager once the last position emitted by Run has been stored
+	stateStored chan struct{}
 }
 
 func (p *PipelineHandler) Run(ctx context.Context, ingestedLogs chan uint64) {
